@@ -570,7 +570,15 @@ add("ApplicationTools.range-vector-readers", {"1", "9", ",", "1:3", "9:1", "(", 
   add("NumCalcApplicationTools.getVector", {"s", "e", "q", "(", "1", ",", "=", ")"}, {"-"}, [](const string& s, int, vf::Case& c) {
     S(c, "NumCalcApplicationTools::getVector"); use(NumCalcApplicationTools::getVector(s));
   }, true);
-  add("NumCalcApplicationTools.getVector.words", {"seq(", "seq(from=0,to=1,", "seq(from=2,to=1,", "seq(from=1e16,to=10000000000000004,", "from=0", "to=x", "step=1", "step=0.5", "step=0", "step=-1", "size=2", "size=0", "size=-1", "scale=log", "scale=z", ",", ")"}, {"-"}, [](const string& s, int, vf::Case& c) {
+  add("NumCalcApplicationTools.getVector.words", {"seq(", "seq(from=0,to=1,", "seq(from=2,to=1,", "from=0", "to=x", "step=1", "step=0.5", "step=0", "step=-1", "size=2", "size=0", "size=-1", "scale=log", "scale=z", ",", ")"}, {"-"}, [](const string& s, int, vf::Case& c) {
+    S(c, "NumCalcApplicationTools::getVector"); use(NumCalcApplicationTools::getVector(s));
+  }, true);
+
+  // whole descriptions whose step is below the resolution of the bounds (x += step does not advance). Kept apart from the word alphabet: a
+  // concatenation such as "seq(from=0,to=1,)seq(from=1e16,..." parses as a request for 1e16 elements, i.e. an allocation that is huge but
+  // proportional to the numbers the input states -- not the 'unbounded allocation' the statement excludes, and not driven.
+  add("NumCalcApplicationTools.getVector.step-below-resolution", {"seq(from=1e16,to=10000000000000004,step=1)", "seq(from=1e16,to=10000000000000004,step=0.5)", "seq(from=-1e16,to=-9999999999999996,step=1)",
+      "seq(from=1e16,to=10000000000000004,size=3)", "seq(from=1e16,to=10000000000000004,step=2)", "seq(from=1,to=1.0000000000000004,step=1e-17)"}, {"-"}, [](const string& s, int, vf::Case& c) {
     S(c, "NumCalcApplicationTools::getVector"); use(NumCalcApplicationTools::getVector(s));
   }, true);
 
@@ -611,6 +619,7 @@ int main(int argc, char** argv) {
     {"ApplicationTools.range-vector-readers", {4, 5}},
     {"DataTable.edits", {4, 5}},
     {"NumCalcApplicationTools.getVector.words", {4, 5}},
+    {"NumCalcApplicationTools.getVector.step-below-resolution", {1, 1}},
     {"readDiscreteDistribution.Simple", {2, 3}},
     {"readDiscreteDistribution.Uniform", {3, 4}},          // a well-formed Uniform needs three arguments
     {"readDiscreteDistribution.compound", {4, 5}},
@@ -642,6 +651,7 @@ int main(int argc, char** argv) {
       if (idx % 7919 == 11) c.sample(ep.name + " [" + ep.opts[(size_t)opt] + "] " + show(in) + (c.failed ? " -> violation" : " -> ok"));
     }, 6.0, 256);
     // ---- repetition families: every word of 1..3 letters repeated to >= 64 and >= 4096 bytes ----
+    if (ep.name.find(".step-below-resolution") != string::npos) continue;   // whole descriptions: a repetition is a request for ~1e16 elements (see the entry point)
     int wl = (A > 12) ? 2 : 3;
     if (ep.name.find(".empty-delimiters") != string::npos) wl = 1;   // solid mode: every case fails on the unchanged tree
     if (ep.name.find("ComputationTree") == 0 || ep.name == "DataTable.edits") wl = 2;   // 4 KiB formulas / tables are the slowest cases
